@@ -871,6 +871,7 @@ fn check(args: &[String]) -> i32 {
             "timeouts_fired": m.stats.get("timeouts").copied().unwrap_or(0),
             "inconclusive_runs_step_budget": m.stats.get("inconclusive_runs").copied().unwrap_or(0),
             "runs_under_the_build_without_debug_assertions": m.stats.get("runs_without_debug_assertions").copied().unwrap_or(0),
+            "threads_found_asleep_outside_the_simulator": m.stats.get("threads_found_asleep_outside_the_simulator").copied().unwrap_or(0),
             "faults_fired": m.faults,
             "reach_probes": m.probes,
             "probes_unreached": unreached,
